@@ -170,6 +170,48 @@ theorem read_order_irrelevant (phased : List Nat) (reads reads' : List Read) (ma
 example : findComponents [10, 20, 30] [⟨0, [10, 20]⟩, ⟨0, [20, 30]⟩] none none =
     findComponents [10, 20, 30] [⟨0, [20, 30]⟩, ⟨0, [10, 20]⟩] none none := by rfl
 
+/-- **reads that cover fewer than two phased variants link nothing**: removing them from the read set changes no
+component (they may still make a position accessible, which then forms a set of its own) -/
+theorem short_reads_link_nothing (phased : List Nat) (reads : List Read) (master : Option (List Nat))
+    (het : Option HetMap) (comps comps' : List (Nat × Nat))
+    (h : findComponents phased reads master het = .ok comps)
+    (h' : findComponents phased (reads.filter (usefulB phased)) master het = .ok comps') (p : Nat) :
+    compOf comps p = compOf comps' p := by
+  obtain ⟨rep, hc, hk, hle, _, hconn⟩ := findComponents_rep phased reads master het comps h
+  obtain ⟨rep', hc', hk', hle', _, hconn'⟩ := findComponents_rep phased _ master het comps' h'
+  rw [hc p, hc' p]
+  split
+  · congr 1
+    apply Nat.le_antisymm
+    · have := (connected_filter_useful phased reads master het p (rep' p)).mpr (hconn' p)
+      rw [(hk p (rep' p)).mpr this]; exact hle _
+    · have := (connected_filter_useful phased reads master het p (rep p)).mp (hconn p)
+      rw [(hk' p (rep p)).mpr this]; exact hle' _
+  · rfl
+
+example : findComponents [10, 20, 30] [⟨0, [10, 20]⟩, ⟨0, [30, 99]⟩, ⟨0, [20]⟩] none none = .ok [(10, 10), (20, 10), (30, 30)] ∧
+    [⟨0, [10, 20]⟩, ⟨0, [30, 99]⟩, ⟨0, [20]⟩].filter (usefulB [10, 20, 30]) = [(⟨0, [10, 20]⟩ : Read)] ∧
+    findComponents [10, 20, 30] [⟨0, [10, 20]⟩] none none = .ok [(10, 10), (20, 10), (30, 30)] := by
+  refine ⟨by rfl, by rfl, by rfl⟩
+
+/-- **alleles and qualities of the read variants are irrelevant** for accessibility and components: two read sets that
+agree on sample ids and positions give the same accessible positions and the same `find_components` result -/
+theorem alleles_and_qualities_irrelevant (all all' : List SelRead) (h : all.map SelRead.toRead = all'.map SelRead.toRead)
+    (n : Nat) (g distrust : Bool) (hom : List Nat) (srs : List SuperReads) :
+    accessiblePositions all n g hom = accessiblePositions all' n g hom ∧
+    computeOverallComponents (accessiblePositions all n g hom) (all.map SelRead.toRead) distrust n g hom srs =
+      computeOverallComponents (accessiblePositions all' n g hom) (all'.map SelRead.toRead) distrust n g hom srs := by
+  have hp : all.flatMap (·.positions) = all'.flatMap (·.positions) := by
+    have e : ∀ l : List SelRead, l.flatMap (·.positions) = (l.map SelRead.toRead).flatMap (·.positions) := by
+      intro l; rw [List.flatMap_map]; rfl
+    rw [e all, e all', h]
+  have hacc : accessiblePositions all n g hom = accessiblePositions all' n g hom := by
+    unfold accessiblePositions; rw [hp]
+  exact ⟨hacc, by rw [hacc, h]⟩
+
+example : [(⟨"a", 0, 0, [(10, 0, 30), (20, 1, 5)]⟩ : SelRead)].map SelRead.toRead =
+    [(⟨"b", 3, 0, [(10, 1, 0), (20, 0, 60)]⟩ : SelRead)].map SelRead.toRead := by rfl
+
 /-- **family stage = C03 on the selected reads**: every accessible position gets the phase-set name `1 +` the leftmost
 position connected to it by chains of SELECTED reads of the family's members (plus the master block) -/
 theorem family_ps_is_leftmost_selected (distrust genetic : Bool) (f : FamilyIn) (o : FamilyOut)
